@@ -43,6 +43,8 @@ for d in sorted(glob.glob(f'{root}/seeded/*/meta.json')):
     m = json.load(open(d))
     r = res.get(sid, {})
     own = r.get(m.get('property', sid[:3]), '?')
+    if m.get('judgement'):
+        own += ' — ' + esc(m['judgement'])
     others = ', '.join(sorted(k for k, v in r.items() if v == 'caught' and k != m.get('property')))
     seeded.append(f"| {sid} | {esc(m.get('summary', ''))[:260]} | {esc(m.get('needs', ''))[:200]} | {own} | {others or '—'} |")
 na = ['| property | reason it is not claimed |', '|---|---|'] + [f"| {x['property_id']} | {esc(x['reason'])} |" for x in man.get('not_applicable', [])]
